@@ -125,7 +125,9 @@ func (r *runner) ev(e vt.Ev) {
 	}
 }
 
-func parts(j jid.JID) (string, string, string) { return j.Localpart(), j.Domainpart(), j.Resourcepart() }
+func parts(j jid.JID) (string, string, string) {
+	return j.Localpart(), j.Domainpart(), j.Resourcepart()
+}
 
 func assemble(l, d, rs string) string {
 	s := d
